@@ -129,7 +129,7 @@ def run(R):
         for d, ss in by_dm.items():
             conds = [s[0] + (s[1], s[2], run_mask[s]) for s in ss]
             twins = [s[0] + (s[1], s[2]) for s in ss] if rnd == 0 else []
-            gm = chrun.gen_module(f'C20_conditions_r{rnd}_d{d}', T.source(conds, twins, d))
+            gm = chrun.gen_module(f'C20_conditions_{R.tier}_r{rnd}_d{d}', T.source(conds, twins, d))
             targets = [f'{gm}.{T.cond_name(*c)}' for c in conds] + [f'{gm}.{T.twin_name(*t)}' for t in twins]
             r = chrun.run(targets, per_condition_timeout=pct, workers=8)
             for s, c in zip(ss, conds):
